@@ -113,6 +113,7 @@ class Adam(Optimizer):
         
         self.m1 = [0 for _ in range(len(parameters))]
         self.m2 = [0 for _ in range(len(parameters))]
+        self.steps = [0 for _ in range(len(parameters))] # number of updates of each parameter
     
     def step(self):
         super().step()
@@ -121,6 +122,7 @@ class Adam(Optimizer):
                 # frozen parameters and parameters without gradient are not updated
                 if not p.requires_grad or p._grad is None: continue
                 grad = -p._grad if self.maximize else p._grad   
+                self.steps[i] += 1
                     
                 # Weight decay
                 if self.weight_decay != 0:
@@ -132,8 +134,8 @@ class Adam(Optimizer):
                 # Update biased second raw moment estimate
                 self.m2[i] = self.beta2 * self.m2[i] + (1.0 - self.beta2) * grad**2.0
                 
-                m1_corrected = self.m1[i] / (1.0 - self.beta1**self.t)
-                m2_corrected = self.m2[i] / (1.0 - self.beta2**self.t)
+                m1_corrected = self.m1[i] / (1.0 - self.beta1**self.steps[i])
+                m2_corrected = self.m2[i] / (1.0 - self.beta2**self.steps[i])
 
                 # Update the parameters using the Adam formula
                 p.data -= (self.lr * m1_corrected) / (np.sqrt(m2_corrected) + self.epsilon)
@@ -168,6 +170,7 @@ class AdamW(Optimizer):
         
         self.m1 = [0 for _ in range(len(parameters))]
         self.m2 = [0 for _ in range(len(parameters))]
+        self.steps = [0 for _ in range(len(parameters))] # number of updates of each parameter
         
     def step(self):
         super().step()
@@ -176,6 +179,7 @@ class AdamW(Optimizer):
                 # frozen parameters and parameters without gradient are not updated
                 if not p.requires_grad or p._grad is None: continue
                 grad = -p._grad if self.maximize else p._grad   
+                self.steps[i] += 1
                 
                 # Weight decay
                 p.data -= self.lr*self.weight_decay*p.data
@@ -186,8 +190,8 @@ class AdamW(Optimizer):
                 # Update biased second raw moment estimate
                 self.m2[i] = self.beta2 * self.m2[i] + (1.0 - self.beta2) * grad**2.0
                 
-                m1_corrected = self.m1[i] / (1.0 - self.beta1**self.t)
-                m2_corrected = self.m2[i] / (1.0 - self.beta2**self.t)
+                m1_corrected = self.m1[i] / (1.0 - self.beta1**self.steps[i])
+                m2_corrected = self.m2[i] / (1.0 - self.beta2**self.steps[i])
 
                 # Update the parameters using the Adam formula
                 p.data -= (self.lr * m1_corrected) / (np.sqrt(m2_corrected) + self.epsilon)
